@@ -126,7 +126,75 @@ def verify(case, connection, error):
     return out
 
 
+@st.composite
+def interrupted_cases(draw, tier):
+    from vfw.props.C02 import chain_records
+    record = draw(st.one_of(
+        gen_records.records(max_steps=24), chain_records()))
+    record['frac'] = draw(st.floats(0.0, 0.999))
+    record['exc'] = draw(st.sampled_from(['interrupt', 'runtime', 'sqlite']))
+    return record
+
+
+def check_after_interrupt(case):
+    """A classify attempt that is interrupted (Ctrl-C, an error) at some
+    statement leaves a dataset that still 'loads': classification of it must
+    complete like any other."""
+    import os
+    import sqlite3
+    from vfw import dataset, faults
+    s, j = case['s'], case['j']
+    with dataset.scratch_dir() as directory:
+        db = os.path.join(directory, 'data.sqlite3')
+        try:
+            dataset.cli_load(case, db, directory)
+        except (ValueError, sqlite3.IntegrityError) as exc:
+            from vfw.core import Reject
+            raise Reject('load-refused') from exc
+        argv = ['classify', db, '-s', repr(float(s)), '-j', repr(float(j))]
+        # count the statements of a clean run on a copy
+        probe = os.path.join(directory, 'probe.sqlite3')
+        shutil.copyfile(db, probe)
+        plan = faults.Plan('count')
+        try:
+            with faults.injected(plan):
+                dataset.cli(['classify', probe] + argv[2:])
+        except Exception:  # pylint: disable=broad-except
+            pass
+        n = plan.count
+        if n == 0:
+            from vfw.core import Reject
+            raise Reject('no statements')
+        k = 1 + min(n - 1, int(case['frac'] * n))
+        plan = faults.Plan('fault', k=k, exception=case['exc'])
+        try:
+            with faults.injected(plan):
+                dataset.cli(argv)
+        except (Exception, KeyboardInterrupt):  # pylint: disable=broad-except
+            pass
+        error = None
+        try:
+            dataset.cli(argv)
+        except Exception as exc:  # pylint: disable=broad-except
+            error = exc
+        connection = sqlite3.connect(db)
+        try:
+            labels = verify(dict(case, cli=True), connection, error)
+        finally:
+            connection.close()
+    labels.add('interrupted-at-{}'.format(
+        'first-statement' if k == 1 else 'later-statement'))
+    if plan.fired and k > 1:
+        labels.add('nontrivial')
+    return labels
+
+
 PARTS = [
+    Part('after_interrupt', check_after_interrupt,
+         strategy=lambda tier: interrupted_cases(tier),
+         budget={'quick': 40, 'thorough': 600},
+         describe='classify completes on a dataset whose previous classify '
+                  'attempt was interrupted'),
     Part('records', check, strategy=lambda tier: cases(tier),
          budget={'quick': 375, 'thorough': 4000},
          describe='load + classify on generated records'),
